@@ -25,13 +25,13 @@ Consume == l' = l + 1 /\ TLCSet(1, IF TLCGet(1) < l THEN l ELSE TLCGet(1))
 SegEnd(p) == LET R == {k \in (p + 1)..Len(Rec) : Rec[k].ev = "reset"} IN
              IF R = {} THEN Len(Rec) + 1 ELSE CHOOSE k \in R : \A j \in R : k <= j
 TagEvs(p) == SelectSeq(SubSeq(Rec, p + 1, SegEnd(p) - 1), LAMBDA e : e.ev \in {"push", "pop", "err_end"})
-SegItems(p) == [k \in 1..Len(TagEvs(p)) |-> [k |-> "cmt", tags |-> <<IF TagEvs(p)[k].ev = "push" THEN "S" ELSE "E">>]]
+SegItems(p) == [k \in 1..Len(TagEvs(p)) |-> [k |-> "cmt", tags |-> <<IF TagEvs(p)[k].ev = "push" THEN "S" ELSE "E">>, ck |-> "a"]]
 
 TraceInit == /\ l = 1 /\ TLCSet(1, 0) /\ Len(Rec) > 0 /\ Rec[1].ev = "reset"
-             /\ items = <<>> /\ ti = 1 /\ stack = <<>> /\ blocks = <<>> /\ err = "none" /\ pc = "done"
+             /\ items = <<>> /\ phase = 1 /\ ti = 1 /\ stack = <<>> /\ blocks = <<>> /\ err = "none" /\ pc = "done"
 
 T_reset == /\ Is("reset") /\ pc = "done"
-           /\ items' = SegItems(l) /\ ti' = 1 /\ stack' = <<>> /\ blocks' = <<>> /\ err' = "none" /\ pc' = "scan"
+           /\ items' = SegItems(l) /\ phase' = 1 /\ ti' = 1 /\ stack' = <<>> /\ blocks' = <<>> /\ err' = "none" /\ pc' = "scan"
            /\ Consume
 \* identity of a start tag = (line, col) logged when it was pushed
 PushedAt(idx) == LET e == TagEvs(CHOOSE p \in 1..l : Rec[p].ev = "reset" /\ SegEnd(p) > l)[idx] IN <<e.line, e.col>>
@@ -42,7 +42,7 @@ T_pop  == /\ Is("pop") /\ stack # <<>>
 T_err_end == Is("err_end") /\ ErrUnexpectedEnd /\ Consume
 T_pair_done == /\ Is("pair_done")
                /\ IF pc = "done" THEN err = "unexpected_end" /\ UNCHANGED vars
-                  ELSE /\ ti > Len(Stream(items)) /\ Len(stack) = Ev.open /\ Len(blocks) = Ev.blocks
+                  ELSE /\ ti > NTags /\ Len(stack) = Ev.open /\ Len(blocks) = Ev.blocks
                        /\ (ErrUnclosed \/ FinishSort)
                /\ Consume
 TraceNext == T_reset \/ T_push \/ T_pop \/ T_err_end \/ T_pair_done
